@@ -101,10 +101,13 @@ def cmd_matrix(seed_root, scratch, only=None, checks=None, thorough_primary=Fals
         os.makedirs(scratch, exist_ok=True)
         rc, out = sh(["git", "-C", "/repo", "worktree", "add", "--detach", repo, "HEAD"])
         assert rc == 0, out
-    sh(["rsync", "-a", "--delete", "--exclude", "harness/target", "--exclude", "work", "--exclude", "replays", "--exclude", ".git", "/verif/", verif + "/"])
-    ct = os.path.join(verif, "harness", "Cargo.toml")
-    s = open(ct).read().replace('path = "/repo"', 'path = "%s"' % repo)
-    open(ct, "w").write(s)
+    if not (os.environ.get("SEEDTEST_NO_SYNC") and os.path.exists(verif)):
+        # (SEEDTEST_NO_SYNC=1: keep the clone taken earlier, so that a long matrix measures one fixed
+        # state of the checks even while /verif is being edited)
+        sh(["rsync", "-a", "--delete", "--exclude", "harness/target", "--exclude", "work", "--exclude", "replays", "--exclude", ".git", "/verif/", verif + "/"])
+        ct = os.path.join(verif, "harness", "Cargo.toml")
+        s = open(ct).read().replace('path = "/repo"', 'path = "%s"' % repo)
+        open(ct, "w").write(s)
     confirmed = {r["id"]: r for r in json.load(open(os.path.join(seed_root, "confirm.json")))}
     mpath = os.path.join(seed_root, "matrix.json")
     matrix = json.load(open(mpath)) if os.path.exists(mpath) else {}
